@@ -515,3 +515,27 @@ def ordered_cases(tier, rng):
         ws = [w for w in walls[:40] if zm.spaced(w)][:20]
         if ws:
             yield case_line('lz.env', data, zm.val(), 1, ws)
+
+
+def refine(cases, impl, model, verdicts, run_both):
+    """A case line is a batch of lookups on one zone, and the judge's domain is decided per lookup.
+    Every batch in which the implementation and the model differ, or which the judge rejects, is
+    re-run as its individual lookups (one point per line), so that a difference at a point outside
+    the property's domain is reported as drift and a rejected point is shrunk and matched on its own."""
+    idx = [i for i in range(len(cases)) if impl[i] != model[i] or verdicts[i].startswith('bad')]
+    if not idx:
+        return cases, impl, model, verdicts
+    singles = []
+    for i in idx:
+        head, pts = cases[i].rsplit(' ', 1)
+        inner = pts[1:-1]
+        if not inner or ',' not in inner:
+            singles.append(cases[i])
+            continue
+        for p in inner.split(','):
+            singles.append(head + ' (' + p + ')')
+    si, sm, sv = run_both(singles)
+    drop = set(idx)
+    keep = [i for i in range(len(cases)) if i not in drop]
+    return ([cases[i] for i in keep] + singles, [impl[i] for i in keep] + list(si),
+            [model[i] for i in keep] + list(sm), [verdicts[i] for i in keep] + list(sv))
